@@ -73,7 +73,7 @@ DIR_OPTS = ('bindir', 'sbindir', 'libdir', 'includedir', 'localedir', 'datadir',
 def item(id_: str, kind: str, sub: str, dir_: T.Dict[str, T.Any], src: T.List[str], **kw: T.Any) -> T.Dict[str, T.Any]:
     it: T.Dict[str, T.Any] = {'id': id_, 'kind': kind, 'sub': sub, 'dir': dir_, 'src': src, 'rename': [], 'pp': False,
                               'hsub': [], 'stem': '', 'locale': '', 'sect': '', 'strip': False, 'exf': [], 'exd': [],
-                              'st': [], 'mode': -1, 'tag': '', 'ext': '', 'to': ''}
+                              'st': [], 'mode': -1, 'tag': '', 'ext': '', 'to': '', 'fl': ''}
     for k, v in kw.items():
         if k not in it:
             raise MachineryError('unknown item field ' + k)
@@ -82,7 +82,13 @@ def item(id_: str, kind: str, sub: str, dir_: T.Dict[str, T.Any], src: T.List[st
 
 
 def ent(p: T.List[str], t: str, m: int, c: str) -> T.Dict[str, T.Any]:
-    return {'p': p, 't': t, 'm': m, 'c': c}
+    return {'p': p, 't': t, 'm': m, 'c': c, 'l': '', 'r': ''}
+
+
+def lnk(p: T.List[str], l: str, r: str, m: int, c: str) -> T.Dict[str, T.Any]:
+    """A source that is a symbolic link with text l; it resolves to a file of mode m / content c (r = 'file': a source of
+    the project, 'fixed': a file planted outside DESTDIR below the virtual root) or dangles (r = 'none')."""
+    return {'p': p, 't': 'link', 'm': m, 'c': c, 'l': l, 'r': r}
 
 
 def rel(*p: str) -> T.Dict[str, T.Any]:
@@ -125,10 +131,16 @@ class Ctx:
         self.o = dict(case['o'])
         self.o['prefix'] = self.rc + list(case['o']['prefix'])
         self.plan = []
+        self.outside_files: T.List[T.Tuple[Path, str, int]] = []
         for it in case['plan']:
             it = json.loads(json.dumps(it))
             if it['dir']['k'] == 'abs':
                 it['dir']['p'] = self.rc + it['dir']['p']
+            for e in it['st']:
+                if e['t'] == 'link' and e['l'].startswith('/'):
+                    if e['r'] == 'fixed':
+                        self.outside_files.append((self.root.joinpath(*e['l'].split('/')[1:]), e['c'], e['m']))
+                    e['l'] = str(self.root) + e['l']
             self.plan.append(it)
         self.by_id = {it['id']: it for it in self.plan}
         self.log = self.build / 'meson-logs' / 'install-log.txt'
@@ -158,6 +170,13 @@ def write_file(p: Path, content: str, mode: int, mtime: int) -> None:
     os.utime(p, (mtime, mtime))
 
 
+def make_link(p: Path, text: str) -> None:
+    p.parent.mkdir(parents=True, exist_ok=True)
+    if os.path.lexists(p):
+        os.unlink(p)
+    os.symlink(text, p)
+
+
 def content_of(it: T.Dict[str, T.Any], e: T.Dict[str, T.Any], touched: bool) -> str:
     return e['c'] + ('#1' if touched else '')
 
@@ -173,13 +192,18 @@ def write_sources(ctx: Ctx, it: T.Dict[str, T.Any], touched: bool) -> None:
         return
     base = ctx.projdir(it['sub'], ctx.src).joinpath(*it['src'])
     if kind != 'subdir':
-        write_file(base, content_of(it, it['st'][0], touched), it['st'][0]['m'], mt)
+        if it['st'][0]['t'] == 'link':
+            make_link(base, it['st'][0]['l'])
+        else:
+            write_file(base, content_of(it, it['st'][0], touched), it['st'][0]['m'], mt)
         return
     base.mkdir(parents=True, exist_ok=True)
     for e in it['st']:
         p = base.joinpath(*e['p'])
         if e['t'] == 'dir':
             p.mkdir(parents=True, exist_ok=True)
+        elif e['t'] == 'link':
+            make_link(p, e['l'])
         else:
             write_file(p, content_of(it, e, touched), e['m'], mt)
     for e in sorted((x for x in it['st'] if x['t'] == 'dir'), key=lambda x: -len(x['p'])):
@@ -227,6 +251,8 @@ def statement(it: T.Dict[str, T.Any]) -> str:
         raise MachineryError('unknown kind ' + kind)
     if kind != 'emptydir' and d['k'] != 'none':
         kw.append('install_dir: ' + mq(dir_text(d)))
+    if it['fl']:
+        kw.append('follow_symlinks: ' + it['fl'])
     if it['mode'] >= 0:
         kw.append('install_mode: ' + mq(symbolic(it['mode'])))
     if it['tag']:
@@ -237,6 +263,8 @@ def statement(it: T.Dict[str, T.Any]) -> str:
 def render(ctx: Ctx) -> None:
     for d in (ctx.src, ctx.home, ctx.cwd, ctx.decoy, ctx.w / 'tmp', ctx.dest.parent):
         d.mkdir(parents=True, exist_ok=True)
+    for fp, content, mode in ctx.outside_files:
+        write_file(fp, content, mode, T0)
     (ctx.home / 'sentinel').write_text('home')
     (ctx.cwd / 'sentinel').write_text('cwd')
     subs = sorted({it['sub'] for it in ctx.plan if it['sub']} | set(ctx.case['env'].get('subprojects', [])))
@@ -567,6 +595,21 @@ def gen_history(rnd: random.Random, n: int, installs: T.List[T.Dict[str, T.Any]]
     return hist
 
 
+def adapt_history(plan: T.List[T.Dict[str, T.Any]], hist: T.List[T.Dict[str, T.Any]], no_touch: bool) -> T.List[T.Dict[str, T.Any]]:
+    """--only-changed decides about a link that is copied as a link by the time stamps of what the source link and the
+    installed link resolve to at that moment (which depends on the order in which the files of one rule are copied):
+    not modelled, so such plans are installed without --only-changed."""
+    copied = any(e['t'] == 'link' and (it['fl'] == 'false' or e['r'] == 'none') for it in plan for e in it['st'])
+    out = []
+    for op in hist:
+        if op['op'] == 'touch' and no_touch:
+            continue
+        if op['op'] == 'install' and copied and op['oc']:
+            op = dict(op, oc=False)
+        out.append(op)
+    return out
+
+
 def gen_env(rnd: random.Random, plan: T.List[T.Dict[str, T.Any]], rich: bool) -> T.Dict[str, T.Any]:
     has_target = any(it['kind'] == 'target' for it in plan)
     return {'backend': 'ninja' if has_target or rnd.random() < 0.15 else 'none',
@@ -597,7 +640,7 @@ def model_cases(model: T.Dict[str, T.Any], n: int, hist_len: int, seed: int) -> 
         r = random.Random(seed * 1000003 + k * 7919 + 1)
         plan = [catalog[i] for i in ids]
         o = opts[(k // len(order) + k) % len(opts)]
-        hist = gen_history(r, hist_len, installs, [i for i in ids if catalog[i]['st']], False)
+        hist = adapt_history(plan, gen_history(r, hist_len, installs, [i for i in ids if catalog[i]['st']], False), False)
         env = gen_env(r, plan, False)
         premk = [it['id'] for it in plan if it['kind'] == 'emptydir' and it['mode'] >= 0 and r.random() < 0.35]
         if premk:
@@ -678,6 +721,63 @@ def gen_opts(rnd: random.Random) -> T.Dict[str, T.Any]:
          'umask': rnd.choice([0o022, 0o022, 0o027, 0o077, 0o002, 0o007, -1, -1]),
          'eumask': rnd.choice([0o022, 0o077, 0o002, 0o027])}
     return o
+
+
+def add_link_sources(rnd: random.Random, g: 'Gen', o: T.Dict[str, T.Any], plan: T.List[T.Dict[str, T.Any]], subs: T.List[str]) -> bool:
+    """Sources that are symbolic links, with follow_symlinks false / true / default, in install_data, install_headers and
+    install_subdir: relative to a sibling that is installed next to the link (with a declared mode of its own), or
+    absolute to a file planted outside DESTDIR with mode 600/640.  Returns True when a link and its sibling are two rules
+    (their sources must then be edited together, so such projects are not edited)."""
+    if rnd.random() < 0.65:
+        return False
+    paired = False
+    n = 0
+    for _ in range(rnd.randint(1, 3)):
+        n += 1
+        fl = rnd.choice(['false', 'false', 'true', ''])
+        r = rnd.random()
+        trees = [it for it in plan if it['kind'] == 'subdir' and not it['fl']]
+        if r < 0.35 and trees:
+            it = rnd.choice(trees)
+            it['fl'] = fl
+            files = [e for e in it['st'] if e['t'] == 'file' and e['p'] not in it['exf']]
+            for e in rnd.sample(files, min(len(files), rnd.randint(1, 2))):
+                name, _ = g.fname('.lnk')
+                it['st'].append(lnk(e['p'][:-1] + [name], e['p'][-1], 'file', e['m'], e['c']))
+            if rnd.random() < 0.4:
+                sec = g.uniq('secret ')
+                name, _ = g.fname('.lnk')
+                it['st'].append(lnk([name], '/outside dir/' + sec, 'fixed', rnd.choice([0o600, 0o640]), 'out:' + sec))
+        elif r < 0.7:
+            # two rules of the same kind, directory, tag and subproject: a file with a declared mode and a link to it
+            kind = rnd.choice(['data', 'header'])
+            sub = rnd.choice(subs) if subs and rnd.random() < 0.3 else ''
+            d = g.dirpath(o)
+            tag = rnd.choice(TAGS + [''])
+            real, ext = g.fname('.h' if kind == 'header' else '.dat')
+            link, _ = g.fname('.lnk')
+            mode = rnd.choice([0o700, 0o600, 0o640, 0o755])
+            srcm = rnd.choice(SRC_MODES)
+            a = item(f'l{n}a', kind, sub, d, [real], ext=ext, mode=mode, tag=tag, st=[ent([], 'file', srcm, f'l{n}:f')])
+            b = item(f'l{n}b', kind, sub, json.loads(json.dumps(d)), [link], ext='.lnk', tag=tag, fl=fl,
+                     mode=rnd.choice([-1, -1, 0o644, 0o755]), st=[lnk([], real, 'file', srcm, f'l{n}:f')])
+            pair = [a, b] if rnd.random() < 0.6 else [b, a]
+            pos = rnd.randint(0, len(plan))
+            plan[pos:pos] = pair
+            paired = True
+        else:
+            kind = rnd.choice(['data', 'header'])
+            sec = g.uniq('secret ')
+            link, _ = g.fname('.lnk')
+            kw: T.Dict[str, T.Any] = {}
+            if rnd.random() < 0.5:
+                kw['mode'] = rnd.choice([0o644, 0o755, 0o664])
+            if rnd.random() < 0.5:
+                kw['tag'] = rnd.choice(TAGS)
+            plan.insert(rnd.randint(0, len(plan)),
+                        item(f'l{n}x', kind, rnd.choice(subs) if subs and rnd.random() < 0.3 else '', g.dirpath(o), [link], ext='.lnk', fl=fl,
+                             st=[lnk([], '/outside dir/' + sec, 'fixed', rnd.choice([0o600, 0o640]), 'out:' + sec)], **kw))
+    return paired
 
 
 def add_overlapping_emptydirs(rnd: random.Random, plan: T.List[T.Dict[str, T.Any]], subs: T.List[str]) -> T.List[str]:
@@ -828,6 +928,7 @@ def gen_project(seed: int, k: int, hist_len: int) -> T.Dict[str, T.Any]:
             if not d['p']:
                 d = rel(*o['libdir'])
             plan.append(item(iid, 'target', sub, d, [name], ext=ext, st=[ent([], 'file', rnd.choice(SRC_MODES), cid + 'f')], **common_kw(True)))
+    paired = add_link_sources(rnd, g, o, plan, subs)
     premk = add_overlapping_emptydirs(rnd, plan, subs)
     tags = sorted({it['tag'] for it in plan if it['tag']} | {'devel', 'man', 'runtime'})
     installs = [full_install(), full_install(),
@@ -845,7 +946,7 @@ def gen_project(seed: int, k: int, hist_len: int) -> T.Dict[str, T.Any]:
         env['premk'] = premk
         if env['pre'] == 'absent':
             env['pre'] = 'dir'
-    hist = gen_history(rnd, hist_len, installs, ids, defect == 'trailing-blank')
+    hist = adapt_history(plan, gen_history(rnd, hist_len, installs, ids, defect == 'trailing-blank'), paired)
     return {'id': f'B{k}', 'o': o, 'plan': plan, 'env': env, 'hist': hist}
 
 
@@ -884,7 +985,19 @@ def probe_cases() -> T.List[T.Dict[str, T.Any]]:
              item('d6', 'subdir', '', rel('share'), ['tree'], st=[ent(['f'], 'file', 0o644, 'd6:0'), ent(['in'], 'dir', 0o755, ''), ent(['in', 'g'], 'file', 0o644, 'd6:1')]),
              item('d7', 'emptydir', '', rel('share', 'tree'), [], mode=0o1775),               # top of a copied tree
              item('d8', 'data', 'sp1', rel('share', 'tree'), ['extra.dat'], ext='.dat', st=[ent([], 'file', 0o644, 'd8:f')])]
+    links = [item('s1', 'data', '', rel('share', 'x'), ['real.dat'], mode=0o700, ext='.dat', st=[ent([], 'file', 0o644, 's1:f')]),
+             item('s2', 'data', '', rel('share', 'x'), ['rel.lnk'], fl='false', ext='.lnk', st=[lnk([], 'real.dat', 'file', 0o644, 's1:f')]),
+             item('s3', 'header', '', rel('inc'), ['abs.lnk'], fl='false', mode=0o644, ext='.lnk',
+                  st=[lnk([], '/outside dir/secret key', 'fixed', 0o600, 'out:key')]),
+             item('s4', 'header', '', rel('inc'), ['copy.lnk'], fl='true', ext='.lnk',
+                  st=[lnk([], '/outside dir/other key', 'fixed', 0o640, 'out:other')]),
+             item('s5', 'subdir', '', rel('share'), ['tree'], fl='false',
+                  st=[ent(['f'], 'file', 0o600, 's5:0'), lnk(['lnk'], 'f', 'file', 0o600, 's5:0'),
+                      lnk(['out.lnk'], '/outside dir/third key', 'fixed', 0o640, 'out:third')]),
+             item('s6', 'data', '', dict(NONE_DIR), ['dflt.lnk'], ext='.lnk', st=[lnk([], 'real.dat', 'file', 0o644, 's1:f')])]
     return [
+        {'id': 'P-link-sources', 'o': o27, 'plan': links, 'env': env,
+         'hist': [inst, inst, {'op': 'uninstall'}, dict(inst, dry=True), inst, {'op': 'uninstall'}]},
         {'id': 'P-emptydir-overlap', 'o': o27, 'plan': edirs, 'env': dict(env, subprojects=['sp1'], pre='dir', premk=['d5']),
          'hist': [dict(inst, tags=['devel']), inst, inst, {'op': 'uninstall'}, inst, {'op': 'uninstall'}]},
         {'id': 'P-foreign', 'o': o27, 'plan': allk, 'env': envn,
@@ -949,6 +1062,8 @@ def item_features(it: T.Dict[str, T.Any]) -> str:
             fs.append(k)
     if it['sub']:
         fs.append('subproject')
+    if any(e['t'] == 'link' for e in it['st']):
+        fs.append('linksrc' + ('=' + it['fl'] if it['fl'] else ''))
     return '+'.join(fs)
 
 
@@ -1116,7 +1231,8 @@ def main(chk: Check) -> None:
         'the real prefix location, the decoy DESTDIR of the environment) - not the whole machine',
         'plans are conflict-free (no two rules install the same path; directories copied/forced by two rules agree): the '
         'documentation does not order the rules',
-        'no symlinks inside install_subdir sources / follow_symlinks, no install scripts, no strip/rpath editing, no built targets '
+        'symbolic links as sources only to regular files (a sibling installed next to the link, or a file planted outside DESTDIR); '
+        'plans that copy links as links are installed without --only-changed; no links to directories; no install scripts, no strip/rpath editing, no built targets '
         'other than one custom_target output written by the harness (there is no ninja); no sticky bit on files',
         'untagged rules are not placed below libdir with suffixes other than .a/.pc/.so/.dll together with installed-tests/systemtap '
         'path components (the documented tag guesses would overlap)',
